@@ -86,6 +86,9 @@ def run(module, cfg=None, env=None, workers=16, timeout=3600, simulate=None, dep
         m = re.match(r'^Error: Invariant (\S+) is violated', line) or re.match(r'^Error: Action property (\S+) is violated', line)
         if m:
             res.violated = m.group(1)
+        m = re.match(r'^Error: Temporal property (\S+) was violated', line)
+        if m:
+            res.violated = m.group(1)
         if 'Temporal properties were violated' in line:
             res.violated = res.violated or 'temporal'
         if not _noise.match(line):
